@@ -1911,6 +1911,24 @@ class _Integrator(Function):
         z = _coerce(dae.get("z", MX(0, 1)))
         p = _coerce(dae.get("p", MX(0, 1)))
         q = _coerce(dae.get("quad", MX(0, 1)))
+        # the flow map is a function of the DAE, not of the integrator object: two integrators built (with the same plugin) from
+        # the same equations over their own input symbols are the same map -> the tag is a digest of the equations with the
+        # input symbols renamed positionally
+        try:
+            import hashlib
+            pairs = []
+            for key in ("x", "z", "p", "t", "u"):
+                for i, v in enumerate(_coerce(dae.get(key, MX(0, 1))).e):
+                    if not isnum(v):
+                        pairs.append((tz(v), z3.Real("__in_%s_%d" % (key, i))))
+            body = []
+            for key in ("ode", "alg", "quad"):
+                for v in _coerce(dae.get(key, MX(0, 1))).e:
+                    t_ = tz(v)
+                    body.append((z3.substitute(t_, *pairs) if pairs else t_).sexpr())
+            self.id = "h" + hashlib.sha256(("%s|%s" % (plugin, "|".join(body))).encode()).hexdigest()[:12]
+        except Exception:
+            pass
         self.nx, self.nz, self.np_, self.nq = x.numel(), z.numel(), p.numel(), q.numel()
         self.names_in = ["x0", "z0", "p", "u", "adj_xf", "adj_zf", "adj_qf"]
         self.names_out = ["xf", "zf", "qf", "adj_x0", "adj_z0", "adj_p", "adj_u"]
@@ -1923,7 +1941,7 @@ class _Integrator(Function):
     def _flow(self, x0, p, z0):
         args = [tz(v) for m in (x0, p, z0) for v in m.e]
         def mk(tag, n):
-            fs = [z3.Function("__intg%d_%s_%d" % (self.id, tag, i), *([R] * (len(args) + 1))) for i in range(n)]
+            fs = [z3.Function("__intg%s_%s_%d" % (self.id, tag, i), *([R] * (len(args) + 1))) for i in range(n)]
             return MX._raw(n, 1, [f(*args) if args else f() for f in fs])
         return {"xf": mk("xf", self.nx), "zf": mk("zf", self.nz), "qf": mk("qf", self.nq)}
 
